@@ -125,3 +125,22 @@ def exp_log(ctx, x):
     m = ctx.m
     return ctx.hint(ctx.And(ctx.Implies(ctx.gt(x, 0), ctx.eq(m.exp(m.log(x)), x)), ctx.eq(m.log(m.exp(x)), x)),
                     "exp(log x)=x (x>0), log(exp x)=x")
+
+
+def sqrt_prod(ctx, a, b):
+    """sqrt(a b) = sqrt(a) sqrt(b) for a, b >= 0"""
+    if ctx.mode == "conc":
+        return True
+    m = ctx.m
+    return ctx.hint(ctx.Implies(ctx.And(ctx.ge(a, 0), ctx.ge(b, 0)), ctx.eq(m.sqrt(a * b), m.sqrt(a) * m.sqrt(b))),
+                    "sqrt(ab)=sqrt a sqrt b, a,b>=0")
+
+
+def pow_third_cubed(ctx, y):
+    """(y^(1/3))^3 = y for y > 0"""
+    if ctx.mode == "conc":
+        return True
+    from fractions import Fraction
+    m = ctx.m
+    p = m.pow(y, Fraction(1, 3))
+    return ctx.hint(ctx.Implies(ctx.gt(y, 0), ctx.And(ctx.eq(p * p * p, y), ctx.gt(p, 0))), "(y^(1/3))^3=y, y>0")
